@@ -67,11 +67,45 @@ def oracle(c, r, refout):
     return None, None
 
 
+def resumed_runs(ctx, cs, count):
+    """the property also covers a run that reports convergence AFTER an interruption: checkpoint every sweep, stop one sweep
+    before the uninterrupted run converges, rebuild in a fresh process (load_checkpoint), continue; same predicate"""
+    out = []
+    picked = 0
+    for i, c in enumerate(cs):
+        if picked >= count or c.get("directed"):
+            continue
+        refout, guard = runs.reference(c)
+        n = refout[-1]["iteration"]
+        if not (guard["ok"] and refout[-1]["converged"] and n >= 2):
+            continue
+        picked += 1
+        d = str(ctx.scratch / f"c04r_{i}" / "ck")
+        ck = dict(runs.config_of(c), checkpoint_dir=d, checkpoint_frequency=1, max_checkpoints=2, enable_async_checkpointing=False)
+        a = core.run_worker(ctx, [{"kind": "ckpt_run", "problem": c["spec"], "solver": "rvi", "config": ck, "ops": [["solve", n - 1]]}])[0]
+        if "error" in a:
+            out.append((c, a, n))
+            continue
+        b = core.run_worker(ctx, [{"kind": "ckpt_restore", "solver": "rvi", "dir": d, "route": "load", "problem": c["spec"], "config": ck,
+                                   "ops": [["solve", sum(c["ks"]) - (n - 1)]]}])[0]
+        out.append((c, b, n))
+    return out
+
+
 def run(ctx, build):
     cs = gen(ctx)
     res = core.run_workers(ctx, [runs.job_of(c) for c in cs])
     corr, viols, items, meta = [], [], [], []
     n_conv = 0
+    n_resumed = 0
+    for c, b, n in resumed_runs(ctx, cs, 3 if ctx.tier == "quick" else 30):
+        n_resumed += 1
+        if "error" in b or b.get("raised"):
+            viols.append({"key": f"resumed-raise:{c['seed']}", "what": f"checkpointed/resumed run failed: {b.get('error') or b.get('raised')}: {b.get('message', '')[:200]}", "input": {"case": c, "resumed_at": n - 1}})
+            continue
+        why, key = oracle(dict(c, directed=True), {"obs": b["obs"]}, None)
+        if why:
+            viols.append({"key": f"resumed:{c['seed']}", "what": f"after an interruption at sweep {n - 1} and a restore: {why}", "input": {"case": c, "resumed_at": n - 1}})
     for c, r in zip(cs, res):
         refout, guard = runs.reference(c)
         why, key = oracle(c, r, refout)
@@ -90,7 +124,8 @@ def run(ctx, build):
             corr.append({"what": "model and RelativeValueIteration disagree", "seed": meta[i]["seed"], "input": {"case": meta[i]}})
     nontriv = {solverun.case_id([c["spec"]["nxt"], c["spec"]["rew"], c["spec"]["prb"], c["spec"].get("init_values"), c["eps"]]) for c in cs if solverun.nontrivial_mdp(c["spec"])}
     cov = {
-        "evaluations": len(cs), "distinct_nontrivial": len(nontriv), "converged_runs": n_conv,
+        "evaluations": len(cs) + n_resumed, "distinct_nontrivial": len(nontriv), "converged_runs": n_conv,
+        "runs_converging_after_interrupt_and_restore": n_resumed,
         "rule": "generated unichain (state 0 reachable from everywhere, self-loop) and deterministic MDPs, gamma = 1, dyadic probabilities, zero and random initial values, "
                 "plus directed cases (constant rewards, constant non-zero initial values: the first sweep passes the test); exact optimal gain by rational policy iteration, "
                 "exact gain of the returned policy by rational elimination; non-trivial as in C01",
@@ -118,6 +153,13 @@ def replay(ctx, build, data):
     if not inp:
         return {"fails": False, "note": "no concrete input"}
     c = inp["case"]
+    if "resumed_at" in inp:
+        for cc, b, n in resumed_runs(ctx, [c], 1):
+            if "error" in b or b.get("raised"):
+                return {"fails": True, "why": str(b)[:300]}
+            why, _ = oracle(dict(cc, directed=True), {"obs": b["obs"]}, None)
+            return {"fails": bool(why), "why": why}
+        return {"fails": False, "note": "case no longer converges"}
     r = core.run_workers(ctx, [runs.job_of(c)])[0]
     refout, _ = runs.reference(c)
     why, _ = oracle(c, r, refout)
